@@ -2,4 +2,4 @@ From SV Require Import Base.Bytes Reconciler.Retries Reconciler.Model.
 Require Extraction.
 Require Import ExtrOcamlBasic.
 Extraction "reconciler_model.ml" keep_types env0 rstate0 settle advance do_write add_fault add_hook faults_off
-  clear_calls ext_prune mark_init live_objs live_contents r_low_watermark t_live kind_code wur.
+  clear_calls ext_prune mark_init live_objs live_objs_aux live_contents r_low_watermark t_live kind_code wur.
